@@ -315,6 +315,11 @@ class Compiler(object):
             self.pre_process_extensibility_implied_type(type_descriptor)
 
     def pre_process_extensibility_implied_type(self, type_descriptor):
+        # The element type of a SEQUENCE OF / SET OF written in place.
+        if 'element' in type_descriptor:
+            self.pre_process_extensibility_implied_type(
+                type_descriptor['element'])
+
         if 'members' not in type_descriptor:
             return
 
